@@ -1384,7 +1384,14 @@ class Validator:
         for k in el.elems():
             g = self.s.elems.get((k.ns, k.local))
             if g is not None or k.xtype is not None:
-                node.kids.append(self.v_elem(k, g, errs, 'lax'))
+                kn = self.v_elem(k, g, errs, 'lax')
+
+                def off(n):
+                    n.assessed = False
+                    for c in n.kids:
+                        off(c)
+                off(kn)             # what is reported for such an element is not compared (processor latitude)
+                node.kids.append(kn)
             else:
                 node.kids.append(self._lax_subtree(k, errs))
         return node
@@ -1910,7 +1917,10 @@ def _gen_schema(r, force=None):
                 return ('e', it[1], mn, mx)
             return ('any', it[1], it[2], mn, mx)
         if all_group:
-            return ('all', [leaf(x) for x in items], r.choice([0, 1, 1]), 1)
+            lv = [leaf(x) for x in items]
+            if all(x[-2] == 0 for x in lv) and r.random() < 0.7:
+                lv[0] = lv[0][:-2] + (1, 1)          # mostly keep at least one required member
+            return ('all', lv, r.choice([0, 1, 1]), 1)
         if len(items) == 1 and depth > 0:
             return leaf(items[0])
         if len(items) == 1:
@@ -2006,7 +2016,7 @@ def _gen_schema(r, force=None):
         tags.add('abstract-type')
     if F.block:
         tags.add('focus-type-block')
-    rdecl = s.add_elem(EDecl(tns, 'r', F, glob=True, nillable=r.random() < 0.2, block=blockset(0.2, ('extension', 'restriction'))))
+    rdecl = s.add_elem(EDecl(tns, 'r', F, glob=True, nillable=r.random() < 0.4, block=blockset(0.2, ('extension', 'restriction'))))
     roots = [('r', rdecl)]
     derived = []
     if named and not twowild:
